@@ -86,6 +86,16 @@ void harness(void)
 			VERIF_ASSERT(VERIF_R_OK(cdata, N * ESZ) &&
 				     cdata[k] == v, C19_OB("fresh"));
 
+		}
+#ifdef TBL_ANSWERS_EQ
+		/* every query of the public read API, for every index, answers
+		 * the same on the copy as on the original */
+		VERIF_ASSERT(TBL_ANSWERS_EQ(o, c, verif_nd_u32("query_index")),
+			     C19_OB("answers_equal"));
+#endif
+		if (N > 0) {
+			sqfs_u8 *cdata = c->TBL_ARR.data;
+
 			/* independence: write through one, read the other */
 			cdata[k] = v ^ 0xFF;
 			VERIF_ASSERT(odata[k] == v, C19_OB("independent"));
